@@ -559,6 +559,14 @@ struct SIMDVector<int32_t,simd_abi::avx> {
         return quan;
     }
 
+    FASTOR_INLINE int32_t product() {
+        int32_t vals[Size]; _mm256_storeu_si256((__m256i*)vals, value);
+        int32_t quan = 1;
+        for (FASTOR_INDEX i=0; i<Size; ++i)
+            quan *= vals[i];
+        return quan;
+    }
+
     FASTOR_INLINE int32_t dot(const SIMDVector<int32_t,simd_abi::avx> &other) {
         int32_t vals0[Size]; _mm256_storeu_si256((__m256i*)vals0, value);
         int32_t vals1[Size]; _mm256_storeu_si256((__m256i*)vals1, other.value);
